@@ -55,7 +55,7 @@ def loop_contract_lines(spec, rowprefix):
             for (cid, txt) in spec[kw]:
                 out.append(('            %s,' % txt, '%s.%s' % (rowprefix, cid)))
     if 'decreases' in spec:
-        out.append(('        decreases ' + spec['decreases'], None))
+        out.append(('        decreases ' + spec['decreases'], '%s.terminates' % rowprefix))
     return out
 
 
@@ -108,6 +108,10 @@ def emit_fn(g, key, fx, contract, rowprefix):
     g.rows[brow] = dict(serves=contract.get('body_serves', []), kind='verus', fn=key,
                         text='callee preconditions, assertions (incl. debug_assert!), arithmetic and termination inside the extracted body')
     for (l, lrow) in body_lines:
+        if lrow and lrow not in g.rows:
+            cid = lrow.rsplit('.', 1)[1]
+            g.rows[lrow] = dict(serves=contract.get('loop_serves', {}).get(cid, contract.get('body_serves', [])), kind='verus', fn=key,
+                                text='loop contract clause `%s` of %s' % (cid, key))
         g.emit('    ' + l, row=(lrow or brow))
     g.emit('    }')
     for (hn, arg, hb) in fx.get('hoisted', []):
